@@ -35,6 +35,8 @@ def check(run, driver):
         scale = float(10 ** rng.uniform(-1, 1))
         mix = rng.standard_normal((d, d)) * 0.6 + np.eye(d)
         X = rng.standard_normal((N, d)) @ mix * scale
+        if it % 5 == 2 and d >= 2:       # coordinates in very different units (spreads up to 1e4 apart)
+            X = X * 10.0 ** rng.uniform(-2, 2, size=d)
         X0 = X.copy()
         h = H(X, k)
         ref, margin, gap = ref_entropy(X, k, detail=True)
